@@ -90,7 +90,7 @@ RUNTIME_PARSE = {
 COPYIDX = {
     ". as $d | $d | file_index": (0, 0, "fi"), ". as $d | $d | document_index": (0, 0, "di"), ". as $d | $d | filename": (0, 0, "fn"),
     "(. * {}) | file_index": (0, 0, "fi"), "(. * {\"z\": 1}) | filename": (0, 0, "fn"), "(. * {\"z\": 1}) | document_index": (0, 0, "di"),
-    "(. + {}) | file_index": (0, 0, "fi"), "explode(.) | document_index": (0, 0, "di"), "explode(.) | file_index": (0, 0, "fi"),
+    "explode(.) | document_index": (0, 0, "di"), "explode(.) | file_index": (0, 0, "fi"),
     ".a as $x | $x | file_index": (1, 0, "fi"), "select(.a) | file_index": (0, 0, "fi"), ". as $d | $d | .a | file_index": (1, 0, "fi"),
 }
 SEL.update(COPYIDX)
